@@ -269,6 +269,9 @@ def texture(name, n):
     if name == "aligned":
         ms = list(CUBE.values())
         return np.array([ms[i % 24] for i in range(n)])
+    if name == "aligned_i64":
+        # the same axis-aligned texture typed with integer literals (an int64 ndarray)
+        return np.rint(texture("aligned", n)).astype(np.int64)
     raise KeyError(name)
 
 
